@@ -129,3 +129,82 @@ def es5_sets():
     id_part = union(union(id_start, category_set('Mn', 'Mc', 'Nd', 'Pc')), from_chars('\u200c\u200d'))
     return dict(WhiteSpace=ws, LineTerminator=lt, UnicodeLetter=letter, IdentifierStart=id_start,
                 IdentifierPart=id_part, unicode_version=unicodedata.unidata_version)
+
+
+def pattern_may_match(pattern, flags, chars):
+    """Sound over-approximation: can a string matched by `pattern` contain one of `chars`?
+    Structural walk over the parsed pattern (sre parser): a literal, a class (also negated), `.`, or a
+    category that admits one of the characters answers yes.  False is a proof that no match contains them."""
+    try:
+        import re._parser as sre_parse
+        import re._constants as C
+    except ImportError:  # pragma: no cover
+        import sre_parse
+        import sre_constants as C
+    tree = sre_parse.parse(pattern, flags)
+    cps = [ord(c) for c in chars]
+
+    def cat_admits(cat, cp):
+        ch = chr(cp)
+        name = str(cat)
+        table = {'CATEGORY_DIGIT': ch.isdigit(), 'CATEGORY_NOT_DIGIT': not ch.isdigit(), 'CATEGORY_SPACE': ch.isspace(),
+                 'CATEGORY_NOT_SPACE': not ch.isspace(), 'CATEGORY_WORD': ch.isalnum() or ch == '_',
+                 'CATEGORY_NOT_WORD': not (ch.isalnum() or ch == '_')}
+        return table.get(name, True)
+
+    def in_admits(items, cp):
+        negate = False
+        hit = False
+        for op, av in items:
+            if op is C.NEGATE:
+                negate = True
+            elif op is C.LITERAL:
+                hit = hit or av == cp
+            elif op is C.RANGE:
+                hit = hit or av[0] <= cp <= av[1]
+            elif op is C.CATEGORY:
+                hit = hit or cat_admits(av, cp)
+            else:
+                return True
+        return hit != negate
+
+    def walk(sub):
+        for op, av in sub:
+            if op is C.LITERAL:
+                if av in cps:
+                    return True
+            elif op is C.NOT_LITERAL:
+                if any(cp != av for cp in cps):
+                    return True
+            elif op is C.ANY:
+                if flags & re.S or any(cp != 10 for cp in cps):
+                    return True
+            elif op is C.IN:
+                if any(in_admits(av, cp) for cp in cps):
+                    return True
+            elif op is C.CATEGORY:
+                if any(cat_admits(av, cp) for cp in cps):
+                    return True
+            elif op is C.BRANCH:
+                if any(walk(b) for b in av[1]):
+                    return True
+            elif op in (C.MAX_REPEAT, C.MIN_REPEAT) or str(op) == 'POSSESSIVE_REPEAT':
+                if walk(av[2]):
+                    return True
+            elif op is C.SUBPATTERN:
+                if walk(av[-1]):
+                    return True
+            elif str(op) == 'ATOMIC_GROUP':
+                if walk(av):
+                    return True
+            elif op in (C.ASSERT, C.ASSERT_NOT, C.AT):
+                continue        # zero-width: contributes no characters to the match
+            elif op is C.GROUPREF:
+                continue        # repeats text already matched by a group that was walked
+            elif op is C.GROUPREF_EXISTS:
+                if walk(av[1]) or (av[2] is not None and walk(av[2])):
+                    return True
+            else:
+                return True     # unknown construct: assume it may
+        return False
+    return walk(tree)
